@@ -1,7 +1,10 @@
 // C39 harness: single- and double-field mutations of valid next blocks on a real solo ledger, delivered as object
 // (AddBlock), as bytes (BlockFromRawBytes + AddBlock) and through the consensus path (ExecuteBlock + SubmitBlock).
 //
-// Line:  A <pre> <op>;<op>;…        (see lean/OntVerif/OntVerif/Driver/C39.lean for the op grammar)
+// Line:  A <pre> <op>;<op>;…        (see lean/OntVerif/OntVerif/Driver/C39.lean for the op grammar; an "H" prefix delivers the
+//
+//	block's own valid header through AddHeader before the mutated block)
+//
 // Predicate (on the implementation's own outputs, independent of the Lean model):
 //   - a block whose mutation set is invalidating must not be accepted            (class accepted-invalid:<mutation>)
 //   - whenever a block is not accepted, height / current hash / header height / next-height index entry / in-memory
@@ -248,7 +251,9 @@ func (s *opState) doOp(op string) (out string, fail, class string) {
 		s.fork = &fh
 		return "fork:" + o1 + "/" + o2, "", ""
 	}
-	parts := strings.SplitN(op, ":", 2)
+	// "H" prefix: the block's own VALID signed header goes through AddHeader (header sync) before the (mutated) block arrives
+	hdrFirst := strings.HasPrefix(op, "H")
+	parts := strings.SplitN(strings.TrimPrefix(op, "H"), ":", 2)
 	if len(parts) != 2 || len(parts[0]) != 3 {
 		return "bad-op", "", ""
 	}
@@ -409,6 +414,14 @@ func (s *opState) doOp(op string) (out string, fail, class string) {
 		sr = flip(sr)
 	}
 
+	hdrOut := ""
+	if hdrFirst {
+		hdrOut = "hdr:ok/"
+		if e := k.Store.AddHeader(b0.Header); e != nil {
+			hdrOut = "hdr:" + classify(e) + "/"
+		}
+	}
+	defer func() { out = hdrOut + out }()
 	mem0, bal0, disk0 := observe(k, true)
 	before := filepath.Join(base, "before")
 	os.RemoveAll(before)
@@ -449,7 +462,11 @@ func (s *opState) doOp(op string) (out string, fail, class string) {
 		if single {
 			for _, m := range muts {
 				if invalidating(m, via, ntx, cur) {
-					return out, "invalid block accepted: mutation " + m + " (" + op + ")", "accepted-invalid:" + classOf(m)
+					cls := "accepted-invalid:" + classOf(m)
+					if hdrFirst {
+						cls += ":header-first"
+					}
+					return out, "invalid block accepted: mutation " + m + " (" + op + ")", cls
 				}
 			}
 		}
@@ -530,6 +547,7 @@ func exec(line string) hx.Result {
 	var outs []string
 	res := hx.Result{}
 	nontrivial := false
+	hdrOps := false // header-sync ops leave headers in the in-memory header cache / raise the header height: never reuse that ledger
 	for i, op := range strings.Split(f[2], ";") {
 		o, fail, class := st.doOp(op)
 		if o == "bad-op" {
@@ -538,7 +556,9 @@ func exec(line string) hx.Result {
 		outs = append(outs, o)
 		if i == 0 {
 			kind := o
-			if len(op) > 2 && op != "fork" {
+			if strings.HasPrefix(op, "H") && len(op) > 3 {
+				kind = op[:3] + " " + o
+			} else if len(op) > 2 && op != "fork" {
 				kind = op[:2] + " " + o
 			}
 			if j := strings.Index(kind, "unknown:"); j >= 0 {
@@ -548,6 +568,9 @@ func exec(line string) hx.Result {
 		}
 		if o != "ok" {
 			nontrivial = true
+		}
+		if strings.HasPrefix(op, "H") {
+			hdrOps = true
 		}
 		if fail != "" && res.Fail == "" {
 			res.Fail, res.Class = fail, class
@@ -561,7 +584,7 @@ func exec(line string) hx.Result {
 		res.Fail, res.Class = "a valid next block was rejected after the scenario: "+then, "valid-block-rejected:"+strings.TrimPrefix(then, "reject:")
 	}
 	res.Out = strings.Join(outs, " | ")
-	if own2, _ := owner(k); res.Fail == "" && then == "ok" && own2 == book {
+	if own2, _ := owner(k); res.Fail == "" && then == "ok" && own2 == book && !hdrOps {
 		keep = true
 	}
 	if nontrivial {
@@ -611,7 +634,11 @@ func genOp(r *hx.Rand) string {
 			ms = append(ms, m)
 		}
 	}
-	return fmt.Sprintf("%c%c%d:%s", via, mode, ntx, strings.Join(ms, ","))
+	h := ""
+	if r.Chance(25) {
+		h = "H"
+	}
+	return fmt.Sprintf("%s%c%c%d:%s", h, via, mode, ntx, strings.Join(ms, ","))
 }
 
 func gen(r *hx.Rand, tier string, i int) string {
@@ -638,6 +665,14 @@ func corpus() []string {
 			c = append(c, "A 3 "+strings.Join(ops, ";"))
 		}
 	}
+	// the block's own valid header is delivered by header sync first; the block then arrives with every signature-side mutation
+	// (header hash unchanged) and with hash-changing field mutations, over all three delivery paths
+	for _, via := range []string{"o", "b", "c"} {
+		for _, m := range append(append([]string{}, sigMutsAll...), "none", "ts=+3", "cons=1", "broot=f", "nb=b", "ts=e") {
+			c = append(c, "A 1 H"+via+"r1:"+m)
+		}
+	}
+	c = append(c, "A 1 Hor1:sig=d;Hor1:sig=d;os1:none", "A 1 fork;Hos1:keys=o")
 	c = append(c, "A 1 fork;os1:prev=f", "A 1 fork;bs1:prev=f;os1:none", "A 2 fork;cs0:prev=f", "A 1 os1:nb=o;os1:none;or1:keys=o;os1:nb=b",
 		"A 1 os1:nb=r;os1:none", "A 2 os0:sroot=f;os2:sroot=f;bs2:dup;bs2:dup,sig=d", "A 1 os1:prev=f", "A 3 os1:h-4;os1:h-3;os1:h+2000000000")
 	return c
@@ -654,7 +689,7 @@ func main() {
 		ID: "C39",
 		Rule: "scenarios on a fresh real solo ledger (LedgerStoreImp over LevelDB): 1-4 ops, each a valid next block with one or two field mutations " +
 			"(26 field + 8 signature mutations), raw or re-signed with the rightful key, delivered as object / as bytes / via ExecuteBlock+SubmitBlock; " +
-			"`fork` plants an equivocating signed header in the header cache. Non-trivial = some op was not accepted. kinds = <via><mode> + verdict of the first op",
+			"`fork` plants an equivocating signed header in the header cache; an `H` prefix sends the block's own valid signed header through AddHeader first (header sync), so the header cache holds a header with the same hash when the mutated block arrives. Non-trivial = some op was not accepted. kinds = <via><mode> + verdict of the first op",
 		Gen:    gen,
 		Exec:   exec,
 		Corpus: corpus(),
